@@ -12,7 +12,7 @@ import (
 // on the listed resolved functions/fields/types. Type faults proper are decided cell-wise (R4.4).
 var c04FaultTable = []struct {
 	class, code, fn string
-	atoms       []string
+	atoms           []string
 }{
 	{"undeclared or out-of-scope name", "SEM_NAME_UNDEFINED", "resolver.(*Resolver).VisitIdent", []string{"call:LookupDecl"}},
 	{"undeclared assignment target", "SEM_NAME_UNDEFINED", "resolver.(*Resolver).VisitAssignStmt", []string{"call:LookupDecl"}},
